@@ -12,8 +12,34 @@ pub fn ev(e: &Expr) -> Option<Value> {
     let binds: FxHashMap<String, Value> = FxHashMap::default();
     eval_expr_with_functions(e, &evt, &ctx, &fns, &binds)
 }
+/// "the same value, or the same absence of a value".  Natively this is Value's own equality.  Under Kani the derived/std comparisons of
+/// the NON-scalar variants (String/Vec/IndexMap: memcmp and element loops over unconstrained lengths — measured: CBMC unwinds memcmp
+/// without bound) are replaced by a scalar-only comparison that answers `false` when in doubt; a refutation that is only due to that
+/// `false` does not reproduce in the native replay and is therefore reported as undecided, never as a violation.
+#[cfg(not(kani))]
 pub fn same(a: &Option<Value>, b: &Option<Value>) -> bool {
     match (a, b) { (None, None) => true, (Some(x), Some(y)) => x == y, _ => false }
+}
+#[cfg(kani)]
+pub fn same(a: &Option<Value>, b: &Option<Value>) -> bool {
+    match (a, b) {
+        (None, None) => true,
+        (Some(x), Some(y)) => match (x, y) {
+            (Value::Null, Value::Null) => true,
+            (Value::Bool(p), Value::Bool(q)) => p == q,
+            (Value::Int(p), Value::Int(q)) => p == q,
+            (Value::Float(p), Value::Float(q)) => (p.is_nan() && q.is_nan()) || p == q,
+            (Value::Str(p), Value::Str(q)) => {
+                let (pb, qb) = (p.as_bytes(), q.as_bytes());
+                if pb.len() != qb.len() || pb.len() > 4 { return false; }
+                let mut i = 0; let mut eq = true;
+                while i < 4 { if i < pb.len() && pb[i] != qb[i] { eq = false; } i += 1; }
+                eq
+            }
+            _ => false,
+        },
+        _ => false,
+    }
 }
 pub fn bin(op: BinOp, l: Expr, r: Expr) -> Expr { Expr::Binary { op, left: Box::new(l), right: Box::new(r) } }
 /// fold_binary(op, l, r) computes what Binary{op, l, r} computes
